@@ -6,6 +6,7 @@ import numpy as np
 from .. import refmodel as R
 from .. import gen as G
 from .. import arith as A
+from .. import universal as U
 
 ID = 'C15'
 TECHNIQUE = 'runtime monitoring: reduction / linear-algebra events by the NumPy, method and function routes judged against the same function on object arrays of exact Fractions'
@@ -234,7 +235,22 @@ def make_judges(ctx):
         nontriv = nontriv or fcls in ('<0', '>w')
         ctx.judged((cname, route, axk, tuple(x.shape), ecls, ''.join('s' if s.signed else 'u' for s in snaps), fcls), nontriv, sample, elements=len(expf))
         ctx.floor_hit((cname, route))
-    return [red_judge]
+    def frame_judge(ev):
+        """the functions return their result: neither an operand nor a bound handed over in an array / list is changed (only the in-place `sort` method writes
+        its receiver)"""
+        name = None
+        if ev.kind == 'method' and ev.op == '__array_function__' and len(ev.args) >= 1:
+            name = getattr(ev.args[0], '__name__', None)
+        elif ev.op in NPF and ev.kind in ('method', 'function'):
+            name = ev.op
+        if name not in NPF or ev.exc is not None or (ev.kind == 'method' and ev.op == 'sort'):
+            return
+        for p_ in U.u2_frame_problems(ev, Fxp):
+            ctx.violation('operand_changed', '%s: %s' % (name, p_[1]), ev, key='frame.operand')
+        for p_ in U.u2_container_problems(ev):
+            ctx.violation('bound_changed', '%s: %s' % (name, p_[1]), ev, key='frame.container')
+        ctx.floor_hit(('frame',))
+    return [red_judge, frame_judge]
 
 
 def floors(tier):
@@ -243,7 +259,7 @@ def floors(tier):
     cells += [('clip_bounds', b) for b in ('float/float', 'ndarray/ndarray', 'list/list', 'Fxp/Fxp', 'float/none', 'none/float')]
     cells += [('clip_bounds_other_format',), ('clip_value_method_fxp_bounds',), ('clip_min_max_keywords',), ('clip_narrow_numpy_bound', 'i'), ('clip_narrow_numpy_bound', 'u'), ('clip_narrow_numpy_bound', 'f'), ('clip_beyond_range', 's'), ('clip_beyond_range', 'u')]
     cells += [('edge_format', f) for f in ('sum', 'cumsum', 'prod', 'cumprod', 'dot', 'clip', 'max', 'sort')]
-    cells += [('acc_significant_bits>24', 'dot'), ('acc_significant_bits>11', 'dot'), ('acc_significant_bits>11', 'sum'), ('noncontiguous_operand',), ('value-method', 'prod'), ('value-method', 'sum'), ('value-method-integer-product-beyond-64-bits',)]
+    cells += [('acc_significant_bits>24', 'dot'), ('acc_significant_bits>11', 'dot'), ('acc_significant_bits>11', 'sum'), ('noncontiguous_operand',), ('value-method', 'prod'), ('value-method', 'sum'), ('value-method-integer-product-beyond-64-bits',), ('frame',), ('clip_int64_array_bounds_twice',)]
     return cells
 
 
@@ -449,6 +465,16 @@ def run_case(case, ctx):
             _try(lambda: x.clip(tp(ia_), None))
             _try(lambda: np.clip(x, None, np.full(shape, ib_, dtype=tp)))
             _try(lambda: np.clip(x[::-1], tp(ia_), float(ib_)))
+    # whole-number bounds held in int64 arrays (NumPy's default integer type), used for two calls by each route: the caller's arrays still hold the bounds
+    if nf > 0 and F(ia) == F(a) * R.lsb(nf) and F(ib) == F(b) * R.lsb(nf) and ia <= ib:
+        ilo, ihi = np.full(shape, ia, dtype=np.int64), np.full(shape, ib, dtype=np.int64)
+        for _ in range(2):
+            _try(lambda: x.clip(ilo, ihi))
+            _try(lambda: fm.clip(x, ilo, ihi))
+            _try(lambda: np.clip(x, ilo, ihi))
+        if ilo.tolist() != np.full(shape, ia).tolist() or ihi.tolist() != np.full(shape, ib).tolist():
+            ctx.violation('bound_changed', 'clip changed the arrays that held its bounds: %s / %s, were %d / %d' % (ilo.ravel().tolist()[:3], ihi.ravel().tolist()[:3], ia, ib), key='frame.container')
+        ctx.floor_hit(('clip_int64_array_bounds_twice',))
     # integer bounds beyond the range of the format (an unsigned object clipped below zero, huge integers): the result saturates on the bound's side
     if nf >= 0:
         if not s:
